@@ -7,7 +7,7 @@ from ..eff import Effects
 from ..libmodels import LIB_FACTS
 from ..nnabs import fold
 from ..rf import RFContext
-from ..rules import Equiv, canon_binders, canon_params, check_equiv, compare_function, std_rewrites, where_of
+from ..rules import rewrite, Equiv, canon_binders, canon_params, check_equiv, compare_function, std_rewrites, where_of
 from ..terms import NONE, const, head, is_const, show, strip, strip_all, subst, walk
 from .C08 import SPEC as C08_SPEC, TRIANGLE_SELECTORS, cdist_rewrite, check_scorer
 
@@ -80,6 +80,15 @@ def scope_terms(r, cname):
         head_, member = d.rsplit(".", 1)
         out[attr] = ("glob", T + head_ + "." + member)
     return out
+
+
+def _copy_default(t):
+    """x.copy(deep=True) is x.copy() (pandas' default)."""
+    def rw(x):
+        if head(x) == "call" and head(strip(x[1])) == "attr" and strip(x[1])[2] == "copy" and not x[2] and len(x[3]) == 1 and x[3][0][0] == "deep" and is_const(strip(x[3][0][1]), True):
+            return ("call", x[1], (), ())
+        return x
+    return rewrite(t, rw)
 
 
 def run(r):
@@ -190,7 +199,7 @@ def run(r):
     eqs = Equiv(rewrites=std_rewrites() + [canon_binders, cdist_rewrite], modelled={"tidytcells.tr.get_aa_sequence", "scipy.spatial.distance.squareform", "pandas.DataFrame"} | TRIANGLE_SELECTORS)
     compare_function(r, "C09-SUM", base + "calc_cdist_matrix", SPEC, "result = sum over all columns in scope of the per-column weighted cdist; V-gene CDRs expanded (on both tables) iff the loop scope is ALL", eq=eqs, key="sum over columns")
     compare_function(r, "C09-CDR", base + "_get_cdr1_from_v_gene_if_possible", SPEC, "a CDR loop is read from tidytcells' sequence data of the V allele, '' when the allele has no such loop", eq=eqs, key="loop lookup")
-    e_s = r.A.summary(base + "_expand_v_gene_cdrs")
+    e_s = r.A.summary(base + "_expand_v_gene_cdrs").assuming_assertions().mapped(_copy_default)     # a failing assert raises; it does not change the expanded table
     rep.analysed(base + "_expand_v_gene_cdrs")
     dfp = ("param", e_s.params[1][0])
     copy = ("call", ("attr", dfp, "copy"), (), ())
